@@ -142,6 +142,14 @@ impl Scenario for WindowScenario {
                 s.store_gradient = true;
                 s.adapt_options.mass_matrix_options.store_mass_matrix = true;
             }
+            Preset::LowRankNuts(s) => {
+                s.store_gradient = true;
+                s.adapt_options.mass_matrix_options.store_mass_matrix = true;
+            }
+            Preset::LowRankMclmc(s) => {
+                s.store_gradient = true;
+                s.adapt_options.mass_matrix_options.store_mass_matrix = true;
+            }
             _ => {}
         }
         let h = run_chain(&cfg);
@@ -169,8 +177,13 @@ impl Scenario for WindowScenario {
             Preset::DiagMclmc(s) => Some(s.adapt_options.mass_matrix_options.use_grad_based_estimate),
             _ => None,
         };
+        let lowrank_settings = match &cfg.preset {
+            Preset::LowRankNuts(s) => Some(s.adapt_options.mass_matrix_options),
+            Preset::LowRankMclmc(s) => Some(s.adapt_options.mass_matrix_options),
+            _ => None,
+        };
         let mut content: Option<RefWindow> = None;
-        if grad_based.is_some() && cfg.reinit_at.is_none() {
+        if (grad_based.is_some() || lowrank_settings.is_some()) && cfg.reinit_at.is_none() {
             if let Some(e) = h.evals.iter().filter(|e| e.index < h.set_position_evals.1 && !e.returned_err).last() {
                 if init.foreground == 1 && init.background == 1 {
                     content = Some(RefWindow { fg: vec![(e.pos.clone(), e.grad.clone())], bg: vec![(e.pos.clone(), e.grad.clone())] });
@@ -245,6 +258,29 @@ impl Scenario for WindowScenario {
                 }
                 if !ok || w.fg.len() as u64 != c.foreground || w.bg.len() as u64 != c.background {
                     content = None;
+                } else if n > 0 && c.foreground >= 3 && lowrank_settings.is_some() {
+                    // low-rank strategy: the repository's own estimator (hook H5) applied to exactly the reference
+                    // window must give the reported scales and eigenvalues
+                    if let (Some(stds), Some(eig)) = (d.vec("mass_matrix_stds"), d.vec("mass_matrix_eigvals")) {
+                        let draws: Vec<Vec<f64>> = w.fg.iter().map(|(x, _)| x.clone()).collect();
+                        let grads: Vec<Vec<f64>> = w.fg.iter().map(|(_, g)| g.clone()).collect();
+                        match nuts_rs::verif::lowrank_estimate(lowrank_settings.unwrap(), &draws, &grads) {
+                            None => out.probe("lowrank_window_estimate_rejected", 1),
+                            Some((rstds, _mean, rvals, _mu)) => {
+                                let close = |a: f64, b: f64| (a - b).abs() <= 1e-9 * (a.abs() + b.abs()) || (a.is_nan() && b.is_nan());
+                                let k = d.u64("num_eigenvalues").unwrap_or(0) as usize;
+                                let ok = rstds.len() == stds.len() && rstds.iter().zip(stds.iter()).all(|(a, b)| close(*a, *b)) && k == rvals.len() && rvals.iter().zip(eig.iter()).all(|(v, e)| close(v.sqrt(), *e));
+                                if !ok && rstds.iter().chain(rvals.iter()).all(|x| x.is_finite() && *x > 0.0) {
+                                    out.violate(
+                                        format!("C09/transformation_not_from_current_window/{pname}"),
+                                        format!("draw {n}: foreground window holds {} accepted draws (background {}), {n_switch} switches so far; reported scales {:?} and {k} eigenvalues {:?}, the estimator applied to exactly the window's draws gives scales {:?} and eigenvalues (sqrt) {:?}", c.foreground, c.background, stds, &eig[..k.min(eig.len())], rstds, rvals.iter().map(|v| v.sqrt()).collect::<Vec<_>>()),
+                                    );
+                                    return out;
+                                }
+                                out.probe("lowrank_window_content_updates_checked", 1);
+                            }
+                        }
+                    }
                 } else if n > 0 && c.foreground >= 3 {
                     if let (Some(stds), Some(mu)) = (d.vec("mass_matrix_inv"), d.vec("transformation_mu")) {
                         match w.compare(grad_based.unwrap(), &stds, &mu) {
